@@ -182,11 +182,11 @@ Mentions(t) ==
 (* harness checks this signature against reflection at start).             *)
 
 MemberType ==
-  [I |-> "int", J |-> "int", I8 |-> "int8", I16 |-> "int16", I32 |-> "int32", I64 |-> "int64",
+  [I |-> "int", J |-> "int", K |-> "int", I8 |-> "int8", I16 |-> "int16", I32 |-> "int32", I64 |-> "int64",
    U |-> "uint", U8 |-> "uint8", U16 |-> "uint16", U32 |-> "uint32", U64 |-> "uint64",
    F32 |-> "float32", F |-> "float64", G |-> "float64", B |-> "bool", C |-> "bool",
    S |-> "string", T |-> "string",
-   Xs |-> "[]int", Ys |-> "[]int", Fs |-> "[]float64", Ss |-> "[]string", Anys |-> "[]any", Any |-> "any",
+   Xs |-> "[]int", Ys |-> "[]int", Big |-> "[]int", Fs |-> "[]float64", Ss |-> "[]string", Anys |-> "[]any", Any |-> "any",
    M |-> "map[string]int", MA |-> "map[string]any",
    O |-> "Obj", P |-> "*Obj", Os |-> "[]Obj", Ps |-> "[]*Obj"]
 
@@ -208,7 +208,11 @@ FnSig ==
    NilFn |-> Sig(<<"int">>, "int"),
    Twice |-> Sig(<<"int">>, "int"),
    I8Id  |-> Sig(<<"int8">>, "int8"),
-   Var   |-> [ps |-> <<"any", "any", "any">>, r |-> "any", var |-> TRUE]]   \* func(...interface{}) interface{}
+   Var   |-> [ps |-> <<"any", "any", "any">>, r |-> "any", var |-> TRUE],   \* func(...interface{}) interface{}
+   Pair  |-> Sig(<<"any", "any">>, "any"),
+   AddF  |-> Sig(<<"float64", "float64">>, "float64"),
+   Tup   |-> [ps |-> <<"any", "any", "any">>, r |-> "any", var |-> TRUE],
+   VarI  |-> [ps |-> <<"any", "any", "any">>, r |-> "any", var |-> TRUE]]
 (* methods of Obj (value receiver) and *Obj (pointer receiver) *)
 MethSig ==
   [GetN |-> Sig(<<>>, "int"),
@@ -254,7 +258,7 @@ RECURSIVE SumSeq(_, _)
 SumSeq(a, i) == IF i > Len(a) THEN 0 ELSE a[i].n + SumSeq(a, i + 1)
 
 (* What the harness's environment functions compute (harness/env.go) *)
-FnApply(name, args) ==
+FnApply(name, args, rho) ==
   CASE name = "Id"    -> args[1]
     [] name = "Neg"   -> Wrap(-(args[1].n), "int")
     [] name = "Add"   -> Wrap(args[1].n + args[2].n, "int")
@@ -269,6 +273,10 @@ FnApply(name, args) ==
     [] name = "Twice" -> Wrap(2 * args[1].n, "int")
     [] name = "I8Id"  -> args[1]
     [] name = "Var"   -> IntV(Len(args))
+    [] name = "Pair"  -> Arr("any", args)
+    [] name = "AddF"  -> Arith("+", args[1], args[2], {})
+    [] name = "Tup"   -> Arr("any", args)       \* the callee returns its argument list
+    [] name = "VarI"  -> Wrap(rho["I"].n + Len(args), "int")   \* a closure over its own environment value
 
 (* a signed integer literal: the only argument form that adopts the        *)
 (* parameter's numeric type (appendix G)                                   *)
@@ -315,12 +323,12 @@ PrepArgs(argTs, vs, ps, i, acc) ==
   ELSE LET v == IF IsSignedIntLit(argTs[i]) /\ ps[i] \in NumKinds THEN Conv(vs[i], ps[i]) ELSE vs[i]
        IN PrepArgs(argTs, vs, ps, i + 1, Append(acc, v))
 
-CallResult(name, sig, argTs, vs, st) ==
+CallResult(name, sig, argTs, vs, st, rho) ==
   LET args == PrepArgs(argTs, vs, sig.ps, 1, <<>>)
       bad  == \E i \in 1..Len(args) : IsErr(args[i]) \/ ~DynAssignable(args[i], sig.ps[i])
   IN IF bad THEN R(Err("type"), st)
      ELSE IF name = "NilFn" THEN R(Err("nil"), st)        \* a nil function value: nothing is called
-     ELSE R(FnApply(name, args), [st EXCEPT !.calls = Append(@, [fn |-> name, args |-> args])])
+     ELSE R(FnApply(name, args, rho), [st EXCEPT !.calls = Append(@, [fn |-> name, args |-> args])])
 
 MethApply(name, recv, args) ==
   LET o == IF recv.t = "ptr" THEN recv.to ELSE recv
@@ -414,7 +422,7 @@ Eval(t, rho, st, cx) ==
     [] t.k = "call"  ->
          LET as == EvalList(t.args, 1, <<>>, rho, st, cx)
          IN IF IsErr(as.err) THEN R(as.err, as.st)
-            ELSE CallResult(t.name, FnSig[t.name], t.args, as.vs, as.st)
+            ELSE CallResult(t.name, FnSig[t.name], t.args, as.vs, as.st, rho)
     [] t.k = "meth"  ->
          LET a == Eval(t.x, rho, st, cx)
          IN IF IsErr(a.v) THEN a
